@@ -132,6 +132,7 @@ def run(rep):
     forwarding(rep, fns)
     factories(rep, fns)
     anyimage(rep, fns)
+    stored_parameters(rep, fns)
     rep.floor("obligations:D1", 40)
     rep.floor("obligations:D2", 60)
     rep.floor("rule:D2-factory", 30)
@@ -380,3 +381,38 @@ def anyimage(rep, fns):
             else:
                 rep.violation("D4-forward", "D4:%s::%s" % (cls, short), R.fn_where(f), {"visit": fn[:160]})
     rep.floor("obligations:D4", 4)
+
+
+def stored_parameters(rep, fns):
+    """D5: the dynamic operations carry their extra arguments (dimensions, alignment, coordinates, steps, converters, values) to the held alternative inside a function
+    object. A member that the constructor stores and operator() never reads is an argument the static operation does not get."""
+    rep.rule("D5 every data member that a constructor of a detail:: function object of the dynamic_image extension initialises from its parameters is read by the object's "
+             "operator() (any instantiation): any_image::recreate(dims, alignment) must reach image::recreate(dims, alignment), X_view(any_view, args...) must reach X_view(view, args...)")
+    classes = {}
+    for f in fns:
+        parts = f["name"].split("::")
+        if len(parts) < 4 or parts[2] != "detail":
+            continue
+        cls = "::".join(parts[:-1])
+        c = classes.setdefault(cls, {"stored": {}, "read": set(), "ops": 0, "where": None})
+        if parts[-1] == parts[-2]:            # constructor
+            for i in f.get("inits", []):
+                if i.get("member") and i.get("init") is not None and R.find(i["init"], lambda x: x.get("k") == "DeclRef" and x.get("dk") == "ParmVar"):
+                    c["stored"][i["member"]] = f
+        elif parts[-1] == "operator()" and f.get("body") is not None:
+            c["ops"] += 1
+            c["where"] = c["where"] or f
+            for m, _ in R.find(f["body"], lambda x: x.get("k") == "Member" and x.get("dk") == "Field"):
+                c["read"].add(m.get("name"))
+    for cls, c in sorted(classes.items()):
+        if not c["stored"] or not c["ops"]:
+            continue
+        rep.count("obligations:D5")
+        short = cls.replace("boost::gil::", "")
+        unused = sorted(m for m in c["stored"] if m not in c["read"])
+        if unused:
+            rep.violation("D5-stored-parameter", "D5:%s" % short, R.fn_where(c["where"]), {"stored but never read by operator()": unused,
+                          "example": "any_image::recreate(dims, 8) on an rgb8 image of width 5: row pitch 15 instead of 16 when detail::recreate_image_fnobj drops _alignment"})
+        else:
+            rep.ok("D5-stored-parameter", "D5:%s" % short, sorted(c["stored"]))
+    rep.floor("obligations:D5", 6)
